@@ -14,6 +14,8 @@ type mLayout struct {
 	nameGap    string // blanks between a rule name and its ':'
 	closeGap   string // blanks before the '}' that closes a rule set
 	noteBreak  bool   // a multi-line annotation's note continues on the next line (OpenAPI harness only)
+	pipeGap    int    // spelling of the bar of a type choice: 0 " | ", 1 "|", 2 "| ", 3 " |", 4 "\t|  "
+	listBreak  bool   // in /* */ annotations the items of a rule's list stand on their own lines
 	annGap     string // blanks between element and annotation
 	multi      bool   // write annotations as /* */ instead of //
 	quoteNames bool   // quote rule names
@@ -36,7 +38,37 @@ func mAnnotationL(n mNode, L mLayout) string {
 			if L.quoteNames {
 				name = `"` + name + `"`
 			}
-			body += name + L.nameGap + ":" + L.colonGap + r.text
+			text := r.text
+			if L.multi && L.listBreak && len(text) > 0 && text[0] == '[' {
+				var broken []byte
+				depth := 0
+				for k := 0; k < len(text); k++ {
+					ch := text[k]
+					switch {
+					case ch == '[' && depth == 0:
+						broken = append(broken, "["+L.nl...)
+						depth++
+						continue
+					case ch == '{' || ch == '[':
+						depth++
+					case ch == '}' || (ch == ']' && depth > 1):
+						depth--
+					case ch == ']' && depth == 1:
+						broken = append(broken, L.nl+"]"...)
+						depth--
+						continue
+					case ch == ',' && depth == 1:
+						broken = append(broken, ","+L.nl...)
+						if k+1 < len(text) && text[k+1] == ' ' {
+							k++
+						}
+						continue
+					}
+					broken = append(broken, ch)
+				}
+				text = string(broken)
+			}
+			body += name + L.nameGap + ":" + L.colonGap + text
 		}
 		body += L.closeGap + "}"
 	}
@@ -59,6 +91,24 @@ func mAnnotationL(n mNode, L mLayout) string {
 		return L.annGap + "/* " + body + " */" + n.userComment
 	}
 	return L.annGap + "// " + body + n.userComment
+}
+
+// mValText spells the bar of a type choice as the layout says.
+func mValText(v string, L mLayout) string {
+	if L.pipeGap == 0 || len(v) == 0 || v[0] != '@' {
+		return v
+	}
+	bar := []string{" | ", "|", "| ", " |", "\t|  "}[L.pipeGap]
+	var out []byte
+	for k := 0; k < len(v); k++ {
+		if k+3 <= len(v) && v[k:k+3] == " | " {
+			out = append(out, bar...)
+			k += 2
+			continue
+		}
+		out = append(out, v[k])
+	}
+	return string(out)
 }
 
 func mPrintL(n mNode, L mLayout) string {
@@ -85,7 +135,7 @@ func mPrintL(n mNode, L mLayout) string {
 					s += `"` + c.key + `":` + L.colonGap
 				}
 			}
-			s += c.valText
+			s += mValText(c.valText, L)
 			if i != len(n.children)-1 {
 				s += ","
 			}
@@ -93,14 +143,14 @@ func mPrintL(n mNode, L mLayout) string {
 				s += " ###" + L.nl + "two lines" + L.nl + "of block comment ###"
 			}
 			s += mAnnotationL(c, L)
-			if L.comments == 1 && i == 0 {
+			if L.comments == 1 && (i == 0 || i == len(n.children)-1) {
 				s += " # trailing comment"
 			}
 			s += L.nl
 		}
 		s += close
 	default:
-		s += n.valText
+		s += mValText(n.valText, L)
 		if L.comments == 3 && mAnnotationL(n, L) != "" {
 			s += " ###" + L.nl + "two lines" + L.nl + "of block comment ###"
 		}
@@ -118,7 +168,7 @@ func mCanonical() mLayout {
 
 // mVary changes ONE layout dimension of L (chosen symbolically).
 func mVary(L mLayout, tag string) mLayout {
-	switch zzverif.IntRange(tag+"dim", 0, 10) {
+	switch zzverif.IntRange(tag+"dim", 0, 12) {
 	case 0:
 		L.nl = []string{"\r\n", "\r"}[zzverif.IntRange(tag+"nl", 0, 1)]
 	case 1:
@@ -137,6 +187,10 @@ func mVary(L mLayout, tag string) mLayout {
 		L.lead = L.nl + " " + L.nl
 	case 9:
 		L.nameGap = []string{" ", "\t", "  "}[zzverif.IntRange(tag+"nameGap", 0, 2)]
+	case 11:
+		L.pipeGap = zzverif.IntRange(tag+"pipeGap", 1, 4)
+	case 12:
+		L.multi, L.listBreak = true, true
 	case 10:
 		L.closeGap = []string{" ", "\t"}[zzverif.IntRange(tag+"closeGap", 0, 1)]
 	default:
@@ -169,7 +223,7 @@ var mModelNo int // the model chosen on this path (for the reachability witnesse
 func mModel() mNode {
 	d := string([]byte{zzverif.Digit("d")})
 	sc := string([]byte{zzverif.OneOf("s", "ab.")})
-	mModelNo = zzverif.IntRange("model", 0, 7)
+	mModelNo = zzverif.IntRange("model", 0, 9)
 	switch mModelNo {
 	case 0:
 		return mNode{kind: schema.TokenTypeNumber, valText: d, valWant: d,
@@ -185,6 +239,15 @@ func mModel() mNode {
 			{kind: schema.TokenTypeShortcut, key: "c", valText: "@t", valWant: "@t"},
 		}
 		return root
+	case 8: // inheritance from two types, a reference as the last member
+		root := mNode{kind: schema.TokenTypeObject, rules: []mRule{{"allOf", `["@o", "@o2"]`, schema.RuleASTNode{}}}}
+		root.children = []mNode{
+			{kind: schema.TokenTypeNumber, key: "a", valText: d, valWant: d},
+			{kind: schema.TokenTypeShortcut, key: "c", valText: "@t | @u", valWant: "@t | @u"},
+		}
+		return root
+	case 9: // the whole schema is a reference
+		return mNode{kind: schema.TokenTypeShortcut, valText: "@t", valWant: "@t"}
 	case 6: // a reference to a named enum rule as the LAST rule of the set
 		return mNode{kind: schema.TokenTypeNumber, valText: d, valWant: d,
 			rules: []mRule{{"nullable", "false", mNum(schema.TokenTypeBoolean, "false")}, {"enum", "@e", schema.RuleASTNode{}}}, note: mNote("n.")}
@@ -247,6 +310,8 @@ func ZzC14Pair() (*JSchema, *JSchema) {
 		s := New("s", text)
 		_ = s.AddRule("@e", enum.New("@e", "[1, 2, 3, 4, 5]"))
 		_ = s.AddType("@t", New("@t", `"x"`))
+		_ = s.AddType("@o", New("@o", `{"oa": 1}`))
+		_ = s.AddType("@o2", New("@o2", `{"ob": 2}`))
 		_ = s.AddType("@u", New("@u", `1`))
 		return s
 	}
@@ -256,7 +321,7 @@ func ZzC14Pair() (*JSchema, *JSchema) {
 func VerifC14_Layout() {
 	// every model must be accepted under some layout pair: a model that is
 	// always rejected (e.g. for a missing rule) would compare nothing
-	zzverif.Expect("accepted", "rejected", "accepted-0", "accepted-1", "accepted-2", "accepted-3", "accepted-4", "accepted-5", "accepted-6", "accepted-7")
+	zzverif.Expect("accepted", "rejected", "accepted-0", "accepted-1", "accepted-2", "accepted-3", "accepted-4", "accepted-5", "accepted-6", "accepted-7", "accepted-8", "accepted-9")
 	m := mModel()
 	t1 := mPrintL(m, mCanonical())
 	t2 := mPrintL(m, mVaried())
@@ -265,6 +330,8 @@ func VerifC14_Layout() {
 		s := New("s", text)
 		_ = s.AddRule("@e", enum.New("@e", "[1, 2, 3, 4, 5]")) // rules first: AddType loads the text
 		_ = s.AddType("@t", New("@t", `"x"`))
+		_ = s.AddType("@o", New("@o", `{"oa": 1}`))
+		_ = s.AddType("@o2", New("@o2", `{"ob": 2}`))
 		if withU {
 			_ = s.AddType("@u", New("@u", `1`))
 		}
@@ -282,11 +349,34 @@ func VerifC14_Layout() {
 	zzverif.Reach("accepted-" + string([]byte{byte('0' + mModelNo)}))
 	a1, _ := s1.GetAST()
 	a2, _ := s2.GetAST()
-	zzverif.Assert(vSameAST(a1, a2), "same AST under every layout")
+	zzverif.Assert(vSameAST(mNoRefBlanks(a1), mNoRefBlanks(a2)), "same AST under every layout (blanks inside a reference text aside)")
 	x1, xe1 := s1.Example()
 	x2, xe2 := s2.Example()
 	zzverif.Assert((xe1 == nil) == (xe2 == nil) && string(x1) == string(x2), "same example under every layout")
 	u1, _ := s1.UsedUserTypes()
 	u2, _ := s2.UsedUserTypes()
 	zzverif.Assert(vSameStrings(u1, u2), "same used types under every layout")
+}
+
+// mNoRefBlanks returns the AST with the blanks inside reference texts
+// (`@a | @b` is reported as written) removed, so that two spellings of the same
+// type choice compare equal.
+func mNoRefBlanks(a schema.ASTNode) schema.ASTNode {
+	if len(a.Value) > 0 && a.Value[0] == '@' {
+		var v []byte
+		for k := 0; k < len(a.Value); k++ {
+			if a.Value[k] != ' ' && a.Value[k] != '\t' {
+				v = append(v, a.Value[k])
+			}
+		}
+		a.Value = string(v)
+	}
+	if len(a.Children) > 0 {
+		cs := make([]schema.ASTNode, len(a.Children))
+		for i := range a.Children {
+			cs[i] = mNoRefBlanks(a.Children[i])
+		}
+		a.Children = cs
+	}
+	return a
 }
